@@ -30,6 +30,7 @@ func replay(path string) int {
 		fmt.Println("no replayer for", f.Property)
 		return 2
 	}
+	replayBefore(fn, f.Replay)
 	bad, detail := fn(f.Replay)
 	fmt.Println(detail)
 	if bad {
